@@ -3,6 +3,15 @@ from . import pipeline, monitor
 
 
 def pipeline_for(prog, rec, tier, rules, monitor=False, spawn=False, explanation=''):
+    rec.extra['explanation'] = explanation
+    try:
+        return _pipeline_for(prog, rec, tier, rules, monitor, spawn, explanation)
+    finally:
+        rec.obls = [o for o in rec.obls if o.rule in rules]
+        rec.instances = {k: v for k, v in rec.instances.items() if any(k.startswith(r) for r in rules)}
+
+
+def _pipeline_for(prog, rec, tier, rules, monitor=False, spawn=False, explanation=''):
     from . import monitor as mon
     pa = pipeline.PipelineAnalysis(prog, rec)
     A = pa.A
@@ -22,10 +31,19 @@ def pipeline_for(prog, rec, tier, rules, monitor=False, spawn=False, explanation
     return pa
 
 
-def combined(prog, rec, tier, rules, driver=(), hmac=(), pipe=False, monitor=False, spawn=False, explanation='', hash=(), modes=(), aes=()):
-    """Run the selected shared analyses, keep the obligations of `rules`."""
+def combined(prog, rec, tier, rules, **kw):
+    """Run the selected shared analyses, keep the obligations of `rules` (also when an analysis gives up)."""
+    try:
+        _combined(prog, rec, tier, rules, **kw)
+    finally:
+        rec.obls = [o for o in rec.obls if o.rule in rules]
+        rec.instances = {k: v for k, v in rec.instances.items() if any(k.startswith(r) for r in rules)}
+
+
+def _combined(prog, rec, tier, rules, driver=(), hmac=(), pipe=False, monitor=False, spawn=False, explanation='', hash=(), modes=(), aes=()):
     from . import monitor as mon
     info = {}
+    rec.extra['explanation'] = explanation
     if pipe or monitor or spawn:
         pa = pipeline.PipelineAnalysis(prog, rec)
         if monitor:
